@@ -1020,6 +1020,22 @@ func planC07(prop string, seed uint64, tier string, idx int) *Plan {
 		filters = []string{at, at, at, "application/vnd.example.sig"}
 		g.p.Profile = "referrers, one artifact type with reserved characters"
 	}
+	if idx%8 == 3 {
+		// a listing long enough for several pages, read while artifacts are being deleted and the page cache is lost
+		g.p.Profile = "referrers, paged listing with deletes between the pages"
+		k.RefLimit = int64(g.r.pick(300, 450, 700, 1200))
+		k.PageCacheMs = int64(g.r.pick(0, 50, 2000))
+		k.Delete = 1
+		g.pushManifest(0, subj, "app", false)
+		for _, a := range arts {
+			if a != dangling && g.p.Objs[a].Subject == subj {
+				g.pushManifest(0, a, "", false)
+			}
+		}
+		for i := 0; i < 2; i++ {
+			g.add(Op{K: "refs", Repo: 0, Obj: subj, Mode: "churn", Algo: g.p.Objs[arts[0]].SubjAlgo})
+		}
+	}
 	n := g.scale(g.r.between(6, 20))
 	for i := 0; i < n; i++ {
 		repo := g.r.intn(g.nrepos())
@@ -1047,6 +1063,8 @@ func planC07(prop string, seed uint64, tier string, idx int) *Plan {
 			}
 			if g.r.chance(8) {
 				op.Mode, op.A = "stale-page", g.r.between(1, 3)
+			} else if k.RefLimit > 0 && g.r.chance(20) {
+				op.Mode, op.A = "churn", 0
 			}
 			g.add(op)
 		case 9:
